@@ -60,7 +60,15 @@ func TestD16CrashInsideFlushAfterSplit(t *testing.T) {
 	s2 := &Session{}
 	defer s2.Close()
 	zzExec(t, s2, "use d16")
-	got := zzQuery(t, s2, "select a from t")
+	var got []string
+	func() {
+		defer func() {
+			if r := recover(); r != nil {
+				t.Fatalf("after a crash inside the flush SELECT panics: %v", r)
+			}
+		}()
+		got = zzQuery(t, s2, "select a from t")
+	}()
 	if fmt.Sprint(got) != "[1 2 3 4 5 6 7 8 9]" {
 		t.Fatalf("after a crash inside the flush want [1 2 3 4 5 6 7 8 9], got %v", got)
 	}
